@@ -51,6 +51,7 @@ Tol6 == FxTol6
 (* translation tolerance of the biweight location: its own iteration stops at steps <= 10^-3, so two runs that  *)
 (* differ only by float rounding may stop one round apart: 2 * 10^-3                                           *)
 TolBilocShift == FxFromRat(2, 1000)
+TolMode == FxFromRat(1, 10000000)
 
 (* ------------------------------------------------------------------------------------------ P-layer: estimators *)
 (* "agrees with an independent implementation of its published formula" -- per estimator (DESIGN 8, C19 table) *)
@@ -92,6 +93,11 @@ FormulaOK(e, r) ==
       [] e = "wstd"   -> FxClose(o, WeightedStd(a, Ws(r)), Tol9)
       [] e = "wmad"   -> WMadFormulaOK(o, a, Ws(r), r.flag)
       [] e = "biloc"  -> BilocFormulaOK(o, a)
+         \* mode: "the location of peak density among the values, estimated using a Gaussian kernel density estimator"
+         \* (scipy.stats.gaussian_kde, Scott's bandwidth): the returned value is a data value whose density -- one
+         \* kernel per observation, so repeated values count with their multiplicity -- is not below that of any other
+         \* data value by more than the evaluation error of Stats.KdeScores (2 * 10^-8 per observation; 10^-7 used)
+      [] e = "mode"   -> IF FxAllEqual(a) THEN FxEq(o, a[1]) ELSE IsKdeMode(o, a, ZMulInt(TolMode, Len(a)))
          \* (one value with an explicit `initial`: the decorator answers 0 before the formula is reached; not compared)
       [] e = "bivar"  -> (r.hasinit /\ Len(a) = 1) \/ BivarFormulaOK(o, a, r.hasinit, InitFx(r))
          \* mse is not one of the property's estimators; it is held to its docstring: "MSE is calculated from zero.
@@ -118,7 +124,7 @@ SmoothOK(r) == r.err = ""
 (* ------------------------------------------------------------------------------------------ clauses *)
 Clauses(op) ==
     CASE op \in LocEst -> {op \o "_noerr", op \o "_range"}
-                          \cup (IF op = "biloc" THEN {"biloc_formula"} ELSE {})
+                          \cup (IF op \in {"biloc", "mode"} THEN {op \o "_formula"} ELSE {})
                           \cup (IF op = "wmedian" THEN {"wmedian_halfweight", "wmedian_equal_weights_is_median",
                                                         "wmedian_midpoint"} ELSE {})
       [] op \in ScaleEst -> {op \o "_noerr", op \o "_nonneg", op \o "_zero_on_constant", op \o "_formula"}
@@ -304,7 +310,7 @@ Body(e, a, w, flag, hasinit, init) ==
       [] e = "wmad"    -> WMadCode(a, w, flag, WMedianCode)
       [] e = "wstd"    -> WeightedStd(a, w)
       [] e = "mse"     -> IF hasinit /\ ~ZIsZero(init) THEN MseAbout(a, init) ELSE MseFromZero(a)    \* `if initial: a = a - initial`
-      [] e = "mode"    -> a[1]              \* not modelled (KDE); constant data returns the constant (after the fix)
+      [] e = "mode"    -> IF FxAllEqual(a) THEN a[1] ELSE KdeMode(a)     \* sorted values, y.argmax(): the first maximum
 (* the decorators on_array(default) / on_weighted_array(default): nothing left -> NaN; one value -> that value   *)
 (* (location estimators, default None) or 0 (scale estimators, default 0 -- for weighted_mad and weighted_std    *)
 (* after the fix).  mean_squared_error strips NaN itself and has no one-value shortcut (after d7371cf).          *)
@@ -355,7 +361,6 @@ Drift(r) ==
     /\ r.kind = "single" /\ r.err = ""
     /\ CASE e = "wmedian" -> ~HasZeroWeight(r) /\ ~FxEq(Out(r), Decorated(e, Xs(r), Ws(r), FALSE, FALSE, ZZero).val)
          [] e = "wmad"    -> ~HasZeroWeight(r) /\ ~FxClose(Out(r), Decorated(e, Xs(r), Ws(r), r.flag, FALSE, ZZero).val, Tol9)
-         [] e = "mode"    -> ~(\E i \in 1..Len(Xs(r)) : FxEq(Out(r), Xs(r)[i]))      \* "a data point by construction"
          [] OTHER -> FALSE
 
 (* ------------------------------------------------------------------------------------------ known findings *)
